@@ -1,6 +1,7 @@
 (** C16 - Exported position arithmetic matches the forest geometry.
-    This file contains only the property theorems; proofs live in Proofs/UtilsGeom.v. *)
+    This file contains only the property theorems; proofs live in Proofs/UtilsGeom.v and Proofs/UtilsGeom2.v. *)
 From Utreexo Require Import Model.Utils Proofs.UtilsGeom.
+From Utreexo Require Import Proofs.UtilsGeom2.
 Open Scope N_scope.
 
 Theorem C16_mask : forall h, h <= 63 -> mask h = 2 ^ (h + 1) - 1.
@@ -11,3 +12,175 @@ Theorem C16_parent : forall h r o, h <= 63 -> r < h -> o < 2 ^ (h - r) ->
   Parent (gpos h r o) h = gpos h (r + 1) (o / 2).
 Proof. exact Parent_gpos. Qed.
 Print Assumptions C16_parent.
+
+Theorem C16_gpos_range : forall h r o, r <= h -> o < 2 ^ (h - r) -> gpos h r o <= 2 ^ (h + 1) - 2.
+Proof. exact gpos_range. Qed.
+Print Assumptions C16_gpos_range.
+
+Theorem C16_gpos_row_mono : forall h r o r' o', r < r' -> r' <= h -> o < 2 ^ (h - r) -> gpos h r o < gpos h r' o'.
+Proof. exact gpos_row_mono. Qed.
+Print Assumptions C16_gpos_row_mono.
+
+Theorem C16_gpos_inj : forall h r o r' o', r <= h -> o < 2 ^ (h - r) -> r' <= h -> o' < 2 ^ (h - r') ->
+  gpos h r o = gpos h r' o' -> r = r' /\ o = o'.
+Proof. exact gpos_inj. Qed.
+Print Assumptions C16_gpos_inj.
+
+Theorem C16_left_child : forall h r o, h <= 63 -> r < h -> o < 2 ^ (h - r - 1) ->
+  LeftChild (gpos h (r + 1) o) h = gpos h r (2 * o).
+Proof. exact LeftChild_gpos. Qed.
+Print Assumptions C16_left_child.
+
+Theorem C16_right_child : forall h r o, h <= 63 -> r < h -> o < 2 ^ (h - r - 1) ->
+  RightChild (gpos h (r + 1) o) h = gpos h r (2 * o + 1).
+Proof. exact RightChild_gpos. Qed.
+Print Assumptions C16_right_child.
+
+Theorem C16_detect_row : forall h r o, h <= 63 -> r <= h -> o < 2 ^ (h - r) -> DetectRow (gpos h r o) h = r.
+Proof. exact DetectRow_gpos. Qed.
+Print Assumptions C16_detect_row.
+
+Theorem C16_sibling : forall h r o, r <= h -> sibling (gpos h r o) = gpos h r (N.lxor o 1).
+Proof. exact sibling_gpos. Qed.
+Print Assumptions C16_sibling.
+
+Theorem C16_right_sib : forall h r o, r <= h -> rightSib (gpos h r o) = gpos h r (N.lor o 1).
+Proof. exact rightSib_gpos. Qed.
+Print Assumptions C16_right_sib.
+
+Theorem C16_left_sib : forall h r o, r <= h -> leftSib (gpos h r o) = gpos h r (o - o mod 2).
+Proof. exact leftSib_gpos. Qed.
+Print Assumptions C16_left_sib.
+
+Theorem C16_is_left_niece : forall h r o, r <= h -> isLeftNiece (gpos h r o) = N.even o.
+Proof. exact isLeftNiece_gpos. Qed.
+Print Assumptions C16_is_left_niece.
+
+Theorem C16_sib_offsets : forall h r o, r < h -> o < 2 ^ (h - r) ->
+  N.lxor o 1 < 2 ^ (h - r) /\ N.lor o 1 < 2 ^ (h - r) /\ o - o mod 2 < 2 ^ (h - r).
+Proof. exact sib_offsets_lt. Qed.
+Print Assumptions C16_sib_offsets.
+
+Theorem C16_parent_many : forall h r o k, h <= 63 -> 1 <= k -> r + k <= h -> o < 2 ^ (h - r) ->
+  ParentMany (gpos h r o) k h = Some (gpos h (r + k) (o / 2 ^ k)).
+Proof. exact ParentMany_gpos. Qed.
+Print Assumptions C16_parent_many.
+
+Theorem C16_parent_many_0 : forall p h, ParentMany p 0 h = Some p.
+Proof. exact ParentMany_0. Qed.
+Print Assumptions C16_parent_many_0.
+
+Theorem C16_parent_many_err : forall p k h, k <> 0 -> (ParentMany p k h = None <-> h < k).
+Proof. exact ParentMany_err. Qed.
+Print Assumptions C16_parent_many_err.
+
+Theorem C16_child_many : forall h r o k, h <= 63 -> r <= h -> k <= r -> o < 2 ^ (h - r) ->
+  ChildMany (gpos h r o) k h = Some (gpos h (r - k) (o * 2 ^ k)).
+Proof. exact ChildMany_gpos. Qed.
+Print Assumptions C16_child_many.
+
+Theorem C16_child_many_err : forall p k h, k <> 0 -> (ChildMany p k h = None <-> h < k).
+Proof. exact ChildMany_err. Qed.
+Print Assumptions C16_child_many_err.
+
+Theorem C16_parent_left_child : forall h r o, h <= 63 -> r < h -> o < 2 ^ (h - r - 1) ->
+  Parent (LeftChild (gpos h (r + 1) o) h) h = gpos h (r + 1) o.
+Proof. exact Parent_LeftChild. Qed.
+Print Assumptions C16_parent_left_child.
+
+Theorem C16_parent_right_child : forall h r o, h <= 63 -> r < h -> o < 2 ^ (h - r - 1) ->
+  Parent (RightChild (gpos h (r + 1) o) h) h = gpos h (r + 1) o.
+Proof. exact Parent_RightChild. Qed.
+Print Assumptions C16_parent_right_child.
+
+Theorem C16_left_child_parent : forall h r o, h <= 63 -> r < h -> o < 2 ^ (h - r) ->
+  LeftChild (Parent (gpos h r o) h) h = leftSib (gpos h r o).
+Proof. exact LeftChild_Parent. Qed.
+Print Assumptions C16_left_child_parent.
+
+Theorem C16_detect_row_parent : forall h r o, h <= 63 -> r < h -> o < 2 ^ (h - r) ->
+  DetectRow (Parent (gpos h r o) h) h = DetectRow (gpos h r o) h + 1.
+Proof. exact DetectRow_Parent. Qed.
+Print Assumptions C16_detect_row_parent.
+
+Theorem C16_tree_rows_0 : TreeRows 0 = 0.
+Proof. exact TreeRows_0. Qed.
+Print Assumptions C16_tree_rows_0.
+
+Theorem C16_tree_rows : forall n, 0 < n -> n <= 2 ^ TreeRows n /\ (TreeRows n = 0 \/ 2 ^ (TreeRows n - 1) < n).
+Proof. exact TreeRows_spec. Qed.
+Print Assumptions C16_tree_rows.
+
+Theorem C16_tree_rows_le : forall n h, TreeRows n <= h <-> n <= 2 ^ h.
+Proof. exact TreeRows_le_iff. Qed.
+Print Assumptions C16_tree_rows_le.
+
+Theorem C16_num_roots : forall n, n < 2 ^ 64 ->
+  numRoots n = N.of_nat (length (filter (N.testbit n) (map N.of_nat (seq 0 64)))).
+Proof. exact numRoots_spec. Qed.
+Print Assumptions C16_num_roots.
+
+Theorem C16_root_position : forall n k h, h <= 63 -> k <= h -> n <= 2 ^ h ->
+  rootPosition n k h = gpos h k (2 * (n / 2 ^ (k + 1))).
+Proof. exact rootPosition_gpos. Qed.
+Print Assumptions C16_root_position.
+
+Theorem C16_root_coord_valid : forall n k h, n <= 2 ^ h -> N.testbit n k = true ->
+  k <= h /\ 2 * (n / 2 ^ (k + 1)) < 2 ^ (h - k).
+Proof. exact root_coord_valid. Qed.
+Print Assumptions C16_root_coord_valid.
+
+Theorem C16_translate_pos : forall h r o h', h <= 63 -> r <= h -> o < 2 ^ (h - r) ->
+  h' <= 63 -> r <= h' -> o < 2 ^ (h' - r) -> translatePos (gpos h r o) h h' = gpos h' r o.
+Proof. exact translatePos_gpos. Qed.
+Print Assumptions C16_translate_pos.
+
+Theorem C16_is_root_position_on_row : forall p n r, n <= 2 ^ 63 ->
+  (isRootPositionOnRow p n r = true <->
+   N.testbit n r = true /\ p = gpos (TreeRows n) r (2 * (n / 2 ^ (r + 1)))).
+Proof. exact isRootPositionOnRow_spec. Qed.
+Print Assumptions C16_is_root_position_on_row.
+
+Theorem C16_in_forest : forall h r o n, h <= 63 -> r <= h -> o < 2 ^ (h - r) ->
+  (inForest (gpos h r o) n h = true <-> (o + 1) * 2 ^ r <= n).
+Proof. exact inForest_spec. Qed.
+Print Assumptions C16_in_forest.
+
+Theorem C16_root_positions : forall n h, h <= 63 -> n <= 2 ^ h ->
+  RootPositions n h =
+  map (fun k => gpos h k (2 * (n / 2 ^ (k + 1))))
+      (filter (N.testbit n) (map N.of_nat (rev (seq 0 (S (N.to_nat h)))))).
+Proof. exact RootPositions_spec. Qed.
+Print Assumptions C16_root_positions.
+
+Theorem C16_remove_bit : forall v b, v < 2 ^ 64 -> b <= 63 -> removeBit v b = v / 2 ^ (b + 1) * 2 ^ b + v mod 2 ^ b.
+Proof. exact removeBit_spec. Qed.
+Print Assumptions C16_remove_bit.
+
+Theorem C16_add_bit : forall v b c, v < 2 ^ 63 -> b <= 63 ->
+  addBit v b c = v / 2 ^ b * 2 ^ (b + 1) + N.b2n c * 2 ^ b + v mod 2 ^ b.
+Proof. exact addBit_spec. Qed.
+Print Assumptions C16_add_bit.
+
+Theorem C16_insbit_rmbit : forall o b, insbit (rmbit o b) b (N.testbit o b) = o.
+Proof. exact insbit_rmbit. Qed.
+Print Assumptions C16_insbit_rmbit.
+
+Theorem C16_calc_next_position : forall h r o del rd, h <= 63 -> r <= rd -> rd < h -> o < 2 ^ (h - r) ->
+  DetectRow del h = rd ->
+  calcNextPosition (gpos h r o) del h = Some (gpos h (r + 1) (rmbit o (rd - r))).
+Proof. exact calcNextPosition_gpos. Qed.
+Print Assumptions C16_calc_next_position.
+
+Theorem C16_calc_prev_position : forall h r o del rd, h <= 63 -> r <= rd -> rd < h -> o < 2 ^ (h - r - 1) ->
+  DetectRow del h = rd ->
+  calcPrevPosition (gpos h (r + 1) o) del h = gpos h r (insbit o (rd - r) (isLeftNiece del)).
+Proof. exact calcPrevPosition_gpos. Qed.
+Print Assumptions C16_calc_prev_position.
+
+Theorem C16_calc_prev_calc_next : forall h r o del rd q, h <= 63 -> r <= rd -> rd < h -> o < 2 ^ (h - r) ->
+  DetectRow del h = rd -> N.testbit o (rd - r) = isLeftNiece del ->
+  calcNextPosition (gpos h r o) del h = Some q ->
+  calcPrevPosition q del h = gpos h r o.
+Proof. exact calcPrev_calcNext. Qed.
+Print Assumptions C16_calc_prev_calc_next.
